@@ -899,8 +899,8 @@ def run(ctx):
     ctx.workdir = rundir
     rng = ctx.rng
     n_models = 40 if quick else 600
-    per_model = 25 if quick else 80
-    n_exec_max = 1200 if quick else 9000
+    per_model = 25 if quick else 50
+    n_exec_max = 1200 if quick else 6000
 
     # ---- models and their unmarked analysis
     systems = []
@@ -1011,7 +1011,9 @@ def run(ctx):
         ctx.log("re-running %d cases that timed out" % len(again))
         for i, l in zip(again, run_sharded(drv, [], [impl_lines[i] for i in again], ctx.workdir, "impl_again")):
             impl_raw[i] = l
+    ctx.log("implementation driver done")
     model_raw = run_sharded(mdl, ["analyse"], mdl_lines, ctx.workdir, "model")
+    ctx.log("model driver done")
 
     nviol = [0]
 
